@@ -160,7 +160,7 @@ pub fn run(ctx: &mut Ctx) {
     let cases = ctx.cases(4000, 15);
     ctx.forall("dna_to_iupac_text", cases, gen::seq_spec(CodecId::Dna, max), conv);
     let th = ctx.thorough();
-    let lens = gen::long_lens(th);
+    let lens = gen::long_lens(th, ctx.seed);
     ctx.forall_lens("dna_to_iupac_text_long", &lens, |n| gen::seq_spec_n(CodecId::Dna, n), conv);
     for id in ALL_CODECS {
         let m = id.model();
@@ -172,6 +172,28 @@ pub fn run(ctx: &mut Ctx) {
                 let acc = acc.clone();
                 (vec(c01::bad_char(m), 0..=3), vec(proptest::sample::select(acc), n), proptest::option::weighted(0.3, (any::<u16>(), c01::bad_char(m))), vec(c01::bad_char(m), 0..=3))
                     .prop_map(move |(lead, body, bad, trail)| Trim { lead, body: c01::Case { codec: id, body, bad: bad.into_iter().collect() }, trail })
+            },
+            dispatch_trim,
+        );
+    }
+    // long inputs without any acceptable byte, and long paddings around a short body
+    for id in ALL_CODECS {
+        let m = id.model();
+        let refused = m.refused_bytes();
+        let acc = m.accepted_bytes();
+        ctx.forall_lens(
+            &format!("trim_long_padding/{}", id.name()),
+            &lens,
+            |n| {
+                let (refused, acc) = (refused.clone(), acc.clone());
+                (vec(proptest::sample::select(refused.clone()), n), vec(proptest::sample::select(acc), 0..=3), prop_oneof![Just(0usize), Just(1usize), Just(n)], proptest::sample::select(refused)).prop_map(move |(pad, body, trail_kind, fill)| {
+                    let trail: Vec<Vec<u8>> = match trail_kind {
+                        0 => vec![],
+                        1 => vec![vec![fill]],
+                        _ => pad.iter().rev().map(|b| vec![*b]).collect(),
+                    };
+                    Trim { lead: pad.iter().map(|b| vec![*b]).collect(), body: c01::Case { codec: id, body, bad: vec![] }, trail }
+                })
             },
             dispatch_trim,
         );
